@@ -207,10 +207,19 @@ func Run(ctx *common.Ctx) int {
 			}
 		}
 	})
-	for _, L := range []int{1, 2, 3, 7, 15, 16, 17, 63, 64, 125, 128, 129, 1121, 2500, 12500, 125000} {
+	// byte lengths at which some test changes regime (runs-distribution cut-off at 8L = 5*2^(k+2)+k-3: 20, 5121, 1310722;
+	// longest run at 784 and 93750; automatic block length at 125, 1250, 125000), each with its neighbours
+	regime := []int{19, 20, 21, 124, 126, 783, 784, 785, 1249, 1250, 1251, 5120, 5121, 5122, 93749, 93750, 93751}
+	if !quick {
+		regime = append(regime, 1310721, 1310722, 1310723)
+	}
+	for _, L := range append([]int{1, 2, 3, 7, 15, 16, 17, 63, 64, 125, 128, 129, 1121, 2500, 12500, 125000}, regime...) {
 		data := enum.FillerBytes(L, uint64(ctx.Seed)+uint64(L))
 		for i := range ps {
 			if L >= 12500 && strings.Contains(ps[i].name, "LinearComplexity") && !strings.Contains(ps[i].name, "m=500)") {
+				continue
+			}
+			if L > 200000 && !(strings.HasPrefix(ps[i].name, "Runs") || strings.HasPrefix(ps[i].name, "MonoBit") || strings.HasPrefix(ps[i].name, "LongestRun") || strings.HasPrefix(ps[i].name, "Poker")) {
 				continue
 			}
 			cmpPair(&ps[i], data, func() interface{} { return map[string]interface{}{"filler_bytes": L, "seed": ctx.Seed + int64(L)} })
